@@ -25,8 +25,9 @@ from contracts import C02_build
 PROP = "C05"
 MIN_OBLIGATIONS = 40
 BB = "pandapower.build_branch"
-NOT_DECIDED = ["not decided: relabelling / row permutation (A-LOOKUP is assumed, not proved), splitting loads (sum per bus: C01), out-of-service "
-               "elements, bus fusing through zero-impedance switches (create_bus_lookup: union-find over arrays)",
+NOT_DECIDED = ["not decided deductively (bounded native stand-in only): relabelling / row permutation (A-LOOKUP is assumed, not proved), splitting "
+               "loads (sum per bus: C01), out-of-service elements (_branches_with_oos_buses), bus fusing through zero-impedance switches "
+               "(create_bus_lookup: union-find over arrays)",
                "not decided: per-unit conversion of transformers, impedances, wards, shunts (trafo chain not under contract)"]
 
 
@@ -123,6 +124,15 @@ def run(vc):
         p.prove("end-swap:Yft=Ytf", z3.And(to_z(Ys[2].re, R) == to_z(Ys[3].re, R), to_z(Ys[2].im, R) == to_z(Ys[3].im, R)), kind="lemma",
                 meta=dict(part="lemma"))
     vc.explore("branch_vectors[lemmas]", h_lemmas, max_paths=40)
+
+    if not hasattr(vc, "native_standins"):
+        vc.native_standins = []
+    vc.native_standins.append(dict(
+        name="table-level re-representations on one fixed network",
+        bound="one 6-bus 20 kV feeder with an energised spur to an out-of-service bus: out-of-service line as first / last row, reversed line "
+              "table, permuted load and bus tables, a load split in two, a load moved to a fused bus, zero-power / out-of-service elements added; "
+              "bus voltages and slack power against the reference representation",
+        script="from replaylib.representations import main_tables\nmain_tables()\n"))
 
 
 def classify(ob, model):
